@@ -892,7 +892,7 @@ def run_route(c):
                 tab[hexf(a)] = hexf(float(special.erfinv(a)))
         out["erfinv_tab"] = sorted(tab.items())
     # the real exponent / factor of ** , * , / in every representation of one real number
-    kv, sv = unhex(c["k"]), unhex(c["s"])
+    kv, sv = unhex(c.get("k", hexf(2.0))), unhex(c.get("s", hexf(2.0)))
     reps = [("float", float), ("f64", np.float64), ("f32", np.float32), ("0d", lambda v: np.array(v)),
             ("int", int), ("i64", np.int64)]
     sc = {}
@@ -928,12 +928,25 @@ def run_route(c):
                             ("variance", lambda: mm.variance), ("log_partition", lambda: mm.log_partition),
                             ("value_for", lambda: mm.value_for(0.25) if hasattr(mm, "cdf") else 0.0),
                             ("cdf", lambda: mm.cdf(xx) if hasattr(mm, "cdf") else 0.0), ("is_valid", lambda: mm.is_valid),
-                            ("shape", lambda: np.array(mm.shape, dtype=float))):
+                            ("shape", lambda: np.array(mm.shape, dtype=float)),
+                            ("fromnat", lambda: mm.from_natural_parameters(np.asarray(mm.natural_parameters, dtype=float)).parameters),
+                            ("fromnat_i64", lambda: mm.from_natural_parameters(nat_as_int(mm)).parameters),
+                            ("fromnat_direct", lambda: mm.from_natural_parameters(direct_nat(float)).parameters),
+                            ("fromnat_direct_i64", lambda: mm.from_natural_parameters(direct_nat(np.int64)).parameters)):
                 try:
                     q[name] = [hexf(z) for z in np.asarray(f(), dtype=float).ravel()]
                 except BaseException as ex:  # noqa
                     q[name] = "exc:" + exc_name(ex) + ": " + str(ex)[:100]
             return q
+
+        def nat_as_int(mm):    # the natural parameters handed back as an integer array when they are integers
+            a = np.asarray(mm.natural_parameters, dtype=float)
+            return a.astype(np.int64) if np.all(a == np.round(a)) else a
+
+        def direct_nat(dtype):    # integer-valued natural parameters of a valid member, as a float or an integer array
+            e2 = [v if c["pfam"] == "beta" else -abs(v) for v in P[1]]
+            a = np.array([P[0], e2], dtype=dtype)
+            return a[:, 0] if len(P[0]) == 1 else a
 
         pr = {}
         if len(P[0]) == 1:
@@ -956,6 +969,16 @@ def run_route(c):
         except BaseException as ex:  # noqa
             pr["mixed"] = "exc:" + exc_name(ex) + ": " + str(ex)[:100]
         out["prep"] = pr
+    # sample-size argument in every representation: the shape of the draw, every draw inside the support
+    sm = {}
+    lo_, hi_ = [float(v) for v in m._support[0]] if getattr(m, "_support", None) else (-np.inf, np.inf)
+    for rn, arg in (("none", None), ("int1", 1), ("int3", 3), ("i64", np.int64(3)), ("0d", np.array(3))):
+        try:
+            v = np.asarray(m.sample() if arg is None else m.sample(arg), dtype=float)
+            sm[rn] = {"shape": list(v.shape), "inside": bool(np.all((v >= lo_) & (v <= hi_))), "msg_shape": list(m.shape)}
+        except BaseException as ex:  # noqa
+            sm[rn] = "exc:" + exc_name(ex) + ": " + str(ex)[:100]
+    out["sample"] = sm
     return out
 
 
